@@ -102,9 +102,41 @@ def _convert_cached_arrays():
     APPLIED.append(f"import-time lookup tables (module/class attributes) converted to SymArray ({n} tables)")
 
 
+def _bitarray_model():
+    """npstructures.BitArray packs 2-bit letters into uint64 registers with shifts and ors.  For symbolic
+    letters it is replaced by its semantic model: sliding_window(k)[j] = sum_i letter[j+i] * 2^(stride*i).
+    The model is compared with the real routine on concrete data by checks/C13.prelude."""
+    import npstructures.bitarray as ba
+    from .arrays import has_sym
+    from .proxy import symnp
+    real_pack = ba.BitArray.pack.__func__
+
+    class SymBitArray:
+        def __init__(self, array, bit_stride):
+            self.array, self.bit_stride = array, bit_stride
+
+        def sliding_window(self, k):
+            a = self.array
+            n = len(a) - k + 1
+            if n <= 0:
+                return symnp.zeros(0, dtype=_np.uint64)
+            tot = symnp.zeros(n, dtype=_np.uint64)
+            for i in range(k):
+                tot = tot + a[i:i + n].astype(_np.uint64) * _np.uint64(1 << (self.bit_stride * i))
+            return tot.astype(_np.uint64)
+
+    def pack(cls, array, bit_stride):
+        if isinstance(array, SymArray) and has_sym(array):
+            return SymBitArray(array, int(bit_stride))
+        return real_pack(cls, array, bit_stride)
+    ba.BitArray.pack = classmethod(pack)
+    APPLIED.append("npstructures BitArray.pack/sliding_window on symbolic letters replaced by the semantic model sum_i letter[j+i]*4^i (validated against the real routine in C13 prelude)")
+
+
 def apply():
     if APPLIED:
         return
+    _bitarray_model()
     _convert_cached_arrays()
     _concretize_shapes()
     _message_formatting()
